@@ -11,6 +11,7 @@ monitors       : the property's own statement, from bytes / inode / mtime_ns / t
 from __future__ import annotations
 
 import ast
+import re
 import builtins
 import contextlib
 import glob as glob_mod
@@ -25,6 +26,12 @@ from harness import common
 
 PREAMBLE = 'From AB Require Import Prelude Editor EditorRun.'
 MAIN = 'main.bean'
+
+
+def cabs(cwd: str, p) -> str:
+    """The file a spelling denotes (no symlinks in the generated trees): abspath, with '//x' == '/x' as on Linux."""
+    x = os.path.normpath(os.path.join(cwd, os.fspath(p)))
+    return x[1:] if x.startswith('//') else x
 
 
 class BodyRaised(Exception):
@@ -157,6 +164,9 @@ SPELLINGS = [
     ('..', '{N}/main.bean', 'rel'), ('..', './{N}//main.bean', 'rel'), ('..', '{N}/inc/deep/../../main.bean', 'rel'),
     ('inc', '../main.bean', 'rel'), ('inc', '{D}/main.bean', 'abs'), ('inc/deep', '../../main.bean', 'rel'),
     ('..', '{D}/main.bean', 'abs'),
+    ('.', '/{D}/main.bean', 'abs'),                       # '//verif/...': two leading slashes
+    ('.', 'nodir/../main.bean', 'unresolvable'),          # the OS cannot walk through nodir; normpath drops it
+    ('inc', '{D}/nodir/../main.bean', 'unresolvable'),
 ]
 
 
@@ -204,6 +214,8 @@ def _seg_match(pat: list[str], segs: list[str]) -> bool:
 
 def would_match(rels: list[str], here: str, pat: str) -> bool:
     """Generator-side approximation of glob (only used to avoid writing patterns that match nothing)."""
+    if pat.startswith('{D}/'):
+        here, pat = '', pat[4:]
     full = os.path.normpath(os.path.join(glob_mod.escape(here), pat))
     if full.startswith('..'):
         return False
@@ -234,6 +246,8 @@ def gen_scenario(rng, force: dict | None = None) -> dict:
                     p = './' + p
                 if rng.random() < 0.15 and here:
                     p = '../' + os.path.basename(here) + '/' + p
+                elif rng.random() < 0.12:
+                    p = '{D}/' + glob_mod.escape(t)          # an absolute include ({D} = the tree, filled in at run time)
             else:
                 p = rng.choice(['*.bean', '?.bean', '**/*.bean', 'inc/*.bean', 'inc/**/*.bean', '[a-c].bean',
                                 '../*.bean', 'deep/*.bean', '../inc/*.bean', './*.bean', 'inc/[cd].bean'])
@@ -268,7 +282,8 @@ def gen_scenario(rng, force: dict | None = None) -> dict:
             scn['rekeys'].append([r, rng.choice(['abs', 'dot', 'dotdot'])])
     if scn['mode'] == 'rec':
         for j in range(rng.choice([0, 0, 1, 1, 2])):
-            suffix = rng.choice([f'n{j}.bean', f'newdir/n{j}.bean', f'inc/n{j}.bean', f'new/deep/n{j}.bean'])
+            suffix = rng.choice([f'n{j}.bean', f'newdir/n{j}.bean', f'inc/n{j}.bean', f'new/deep/n{j}.bean'] * 4 +
+                                ['inc', 'main.bean/x.bean', 'main.bean/sub/x.bean', 'inc/deep'])   # something in the way
             eol = rng.choice(['\n', '\r\n'])
             scn['adds'].append([suffix, '' if rng.random() < 0.35 else
                                 f'; created {j}{eol}2000-01-03 open Assets:New{j}{eol}'])
@@ -333,19 +348,24 @@ def corpus() -> list[dict]:
 # running the real Editor on a scenario
 _PARSER = None
 _PARSE_LOG: list = []
+HYP = {'print_parse_holds': 0, 'print_parse_fails': 0}
 
 
 def _parser():
     global _PARSER
     if _PARSER is None:
-        from autobean_refactor import parser as parser_lib
+        from autobean_refactor import parser as parser_lib, models as models_mod, printer as printer_mod
 
         class RecParser(parser_lib.Parser):
             def parse(self, text, target):
-                entry = [text, None]
+                entry = [text, None, []]
                 _PARSE_LOG.append(entry)
                 res = super().parse(text, target)
                 entry[1] = res
+                # read now: the body may delete the directives later
+                entry[2] = [d.filename for d in getattr(res, 'raw_directives', []) if isinstance(d, models_mod.Include)]
+                ok = printer_mod.print_model(res, io.StringIO()).getvalue() == text
+                HYP['print_parse_holds' if ok else 'print_parse_fails'] += 1
                 return res
         _PARSER = RecParser()
     return _PARSER
@@ -362,7 +382,7 @@ def fs_log(log: list):
 
     def ab(p):
         try:
-            return os.path.abspath(os.fspath(p))
+            return cabs(os.getcwd(), p)
         except TypeError:
             return None
 
@@ -437,14 +457,14 @@ def execute(ctx, scn: dict) -> dict:
             p = os.path.join(D, rel)
             os.makedirs(os.path.dirname(p), exist_ok=True)
             with open(p, 'wb') as f:
-                f.write(text.encode('ascii'))
+                f.write(text.replace('{D}', D).encode('ascii'))
             os.utime(p, ns=(OLD_NS, OLD_NS))
         obs['dirs0'] = [D, top] + [os.path.join(b, x) for b, ds, _ in os.walk(D) for x in ds]
         before = snapshot(D)
         obs['reach'] = reachable(scn, D)          # independent oracle, evaluated while the tree exists
         cwd_abs = os.path.normpath(os.path.join(D, scn['cwd']))
         root = scn['root'].replace('{D}', D).replace('{N}', 'w')
-        obs.update(cwd=cwd_abs, root=root)
+        obs.update(cwd=cwd_abs, root=root, root_resolves=os.path.exists(os.path.join(cwd_abs, root)))
         log: list = []
         del _PARSE_LOG[:]
         ed = editor_lib.Editor(parser)
@@ -480,9 +500,7 @@ def execute(ctx, scn: dict) -> dict:
             os.chdir(old_cwd)
         after = snapshot(D)
         obs.update(before=before, after=after, log=log, keys=keys, body_out=body_out, exc=exc, stage=stage,
-                   parses=[(t, r is not None,
-                            [d.filename for d in r.raw_directives if isinstance(d, models.Include)] if r is not None else [])
-                           for t, r in _PARSE_LOG],
+                   parses=[(t, r is not None, list(names)) for t, r, names in _PARSE_LOG],
                    n_entered=len(entered_models) if entered_models is not None else None)
     finally:
         os.chdir(old_cwd)
@@ -493,10 +511,10 @@ def execute(ctx, scn: dict) -> dict:
 def respell(k: str, style: str) -> str:
     """Another spelling of the same file."""
     if style == 'abs':
-        return os.path.relpath(k) if os.path.isabs(k) else os.path.abspath(k)
+        return os.path.relpath(k) if os.path.isabs(k) else cabs(os.getcwd(), k)
     if style == 'dot':
         return os.path.join(os.path.dirname(k), '.', os.path.basename(k)) if os.path.dirname(k) else './' + k
-    parent = os.path.basename(os.path.dirname(os.path.abspath(k)))
+    parent = os.path.basename(os.path.dirname(cabs(os.getcwd(), k)))
     return os.path.join(os.path.dirname(k), '..', parent, os.path.basename(k))
 
 
@@ -504,7 +522,7 @@ def _body(scn, files, D, models, parser):
     """The body of the `with` block: edits / removals / additions chosen by the scenario."""
     if scn['raise'] == 'before':
         raise BodyRaised()
-    by_rel = {os.path.relpath(os.path.abspath(k), D): k for k in files}
+    by_rel = {os.path.relpath(cabs(os.getcwd(), k), D): k for k in files}
     for rel, kind in scn['edits'].items():
         if rel not in by_rel:
             continue
@@ -566,15 +584,34 @@ def reachable(scn, D: str) -> tuple[set[str], bool]:
             bad = True
             continue
         for pat in scn['incs'].get(rel, []):
-            ms = glob_mod.glob(os.path.join(glob_mod.escape(os.path.dirname(f)), pat), recursive=True)
+            ms = glob_mod.glob(os.path.join(glob_mod.escape(os.path.dirname(f)), pat.replace('{D}', D)), recursive=True)
             if not ms:
                 bad = True
             todo.extend(os.path.normpath(m) for m in ms)
     return seen, bad
 
 
+ALIAS_SIG = 'C16:same-file-under-two-spellings'
 UNESCAPED = ('_get_include_paths passes dirname(path) unescaped to glob.glob: in a directory whose name contains '
              '[ ] * ? an include matches nothing or matches files of a look-alike directory')
+
+
+def obstructed_add(scn, obs) -> bool:
+    """Did the body add a key that names an existing directory, or lies below an existing regular file?"""
+    D, keys = obs['D'], obs['keys'] or []
+    if scn['mode'] != 'rec' or not keys:
+        return False
+    first_key = next((k for k in keys if cabs(obs['cwd'], k) == os.path.join(D, MAIN)), keys[0])
+    files0 = {os.path.join(D, r) for r in obs['before']}
+    for suffix, _ in scn['adds']:
+        a = cabs(obs['cwd'], os.path.join(os.path.dirname(first_key), suffix))
+        if a in obs['dirs0']:
+            return True
+        while a.startswith(D + '/'):
+            a = os.path.dirname(a)
+            if a in files0:
+                return True
+    return False
 
 
 def monitors(scn, obs, reach: tuple[set[str], bool]) -> list[tuple[str, str]]:
@@ -592,6 +629,16 @@ def monitors(scn, obs, reach: tuple[set[str], bool]) -> list[tuple[str, str]]:
     if isinstance(exc, CallLimit):
         return [('C16:does-not-terminate', f'more than {MAX_CALLS} file-system calls on a tree of {len(before)} files: '
                                            'the traversal of the include graph does not terminate')]
+    if scn['mode'] == 'rec' and obs['keys'] is not None:
+        by_file: dict[str, list[str]] = {}
+        for k in obs['keys']:
+            by_file.setdefault(cabs(obs['cwd'], k), []).append(k)
+        dup = {f: ks for f, ks in by_file.items() if len(ks) > 1}
+        if dup:
+            f, ks = sorted(dup.items())[0]
+            return [(ALIAS_SIG, f'{os.path.relpath(f, D)} is reached under {len(ks)} spellings {ks} (a relative and an absolute '
+                                'include): it is read and parsed once per spelling and yielded as that many independent models, so '
+                                'edits to one are overwritten or dropped and removing one key deletes the file the other still names')]
     if obs['stage'] in ('enter', 'body'):
         # the block raised (or could not be entered): no file is touched
         if obs['stage'] == 'body' and not isinstance(exc, BodyRaised):
@@ -602,6 +649,20 @@ def monitors(scn, obs, reach: tuple[set[str], bool]) -> list[tuple[str, str]]:
             if rel not in before or not untouched(rel):
                 fails.append(('C16:raise-touched', f'the block raised but {rel} was created, changed or rewritten'))
                 break
+        if obs['stage'] == 'enter' and scn['mode'] == 'single':
+            main_bad = '???' in scn['files'][MAIN]
+            if obs['root_resolves'] and not main_bad:
+                fails.append(('C16:enter-raised', f'edit_file raised {type(exc).__name__} on a parsable file spelled {obs["root"]!r}'))
+        if obs['stage'] == 'enter' and scn['mode'] == 'rec' and reach[1] and isinstance(exc, ValueError):
+            # "No files match 'pattern' (path:LINE)": LINE is the 0-based line of that include directive (C08)
+            m = re.match(r"No files match '(.*)' \((.*):(\d+)\)$", str(exc))
+            if m:
+                rel = os.path.relpath(cabs(obs['cwd'], m.group(2)), D)
+                lines = before.get(rel, (b'',))[0].decode('ascii').split('\n')
+                want_lines = [i for i, ln in enumerate(lines) if ln.startswith('include ') and f'"{m.group(1)}"' in ln]
+                if int(m.group(3)) not in want_lines:
+                    fails.append(('C16:include-error-line', f'{str(exc)!r}: the include directive is on 0-based line(s) '
+                                                            f'{want_lines} of {rel}'))
         if obs['stage'] == 'enter' and scn['mode'] == 'rec' and not reach[1]:
             if isinstance(exc, ValueError) and magic_dirs:
                 fails.append(('C16:glob-dirname-unescaped', UNESCAPED + f' (here: ValueError, directories {magic_dirs})'))
@@ -609,6 +670,8 @@ def monitors(scn, obs, reach: tuple[set[str], bool]) -> list[tuple[str, str]]:
                 fails.append(('C16:enter-raised', f'edit_file_recursive raised {type(exc).__name__} on a well-formed include graph'))
         return fails
     if obs['stage'] == 'exit':
+        if isinstance(exc, OSError) and obstructed_add(scn, obs):
+            return fails        # the body added a key where a directory / below a regular file: the OS error is the caller's
         if isinstance(exc, FileNotFoundError) and any(x[0] == 'makedirs' and x[1] == '' for x in log):
             fails.append(('C16:bare-path-makedirs',
                           "edit_file_recursive on a path without a directory part reaches os.makedirs('') after the "
@@ -618,7 +681,7 @@ def monitors(scn, obs, reach: tuple[set[str], bool]) -> list[tuple[str, str]]:
         return fails
     # the block completed
     keys = obs['keys']
-    in_map = {os.path.relpath(os.path.abspath(os.path.join(obs['cwd'], k)), D) for k in keys}
+    in_map = {os.path.relpath(cabs(obs['cwd'], k), D) for k in keys}
     if scn['mode'] == 'rec':
         want = {os.path.relpath(p, D) for p in reach[0]}
         reads = [os.path.relpath(x[2], D) for x in log if x[0] == 'r' and x[2] and x[2].startswith(D + '/')]
@@ -631,14 +694,14 @@ def monitors(scn, obs, reach: tuple[set[str], bool]) -> list[tuple[str, str]]:
     removed = {r for r in scn['removes'] if r in in_map}
     rekeyed = {r for r, _ in scn.get('rekeys', []) if r in in_map and r not in removed} if scn['mode'] == 'rec' else set()
     reported: set[str] = set()
-    printed_by_rel = {os.path.relpath(os.path.abspath(os.path.join(obs['cwd'], k)), D): t.encode('ascii')
+    printed_by_rel = {os.path.relpath(cabs(obs['cwd'], k), D): t.encode('ascii')
                       for k, t in obs['body_out'] or []}
-    first_key = next((k for k in keys if os.path.abspath(os.path.join(obs['cwd'], k)) == os.path.join(D, MAIN)), keys[0])
+    first_key = next((k for k in keys if cabs(obs['cwd'], k) == os.path.join(D, MAIN)), keys[0])
     added = {}
     if scn['mode'] == 'rec':
         for suffix, text in scn['adds']:
             k = os.path.join(os.path.dirname(first_key), suffix)
-            added[os.path.relpath(os.path.abspath(os.path.join(obs['cwd'], k)), D)] = text.encode('ascii')
+            added[os.path.relpath(cabs(obs['cwd'], k), D)] = text.encode('ascii')
     for rel in sorted(before):
         data = before[rel][0]
         if rel in removed:
@@ -677,7 +740,7 @@ def monitors(scn, obs, reach: tuple[set[str], bool]) -> list[tuple[str, str]]:
         fails.append(('C16:other-file-touched', f'{rel} was created'))
     # every file named by the final mapping (whatever the spelling of its key) exists and holds the printed model
     for k, printed in obs['body_out'] or []:
-        rel = os.path.relpath(os.path.abspath(os.path.join(obs['cwd'], k)), D)
+        rel = os.path.relpath(cabs(obs['cwd'], k), D)
         got = after.get(rel, (None,))[0]
         if rel in reported or got == printed.encode('ascii'):
             continue
@@ -748,7 +811,7 @@ def coq_case(cfg, scn, obs) -> str:
             continue
         pseen.add(p)
         pl.append(pair(S(p), f'({S(os.path.normpath(p))}, {S(os.path.dirname(p))}, {S(str(pathlib.PurePosixPath(p)))}, '
-                             f'({S(os.path.normpath(os.path.join(cwd, p)))}, {S(glob_mod.escape(p))}))'))
+                             f'({S(cabs(cwd, p))}, {S(glob_mod.escape(p))}))'))
     return ('(mkcase ' + ' '.join([
         common.coq_bool(cfg[0]), common.coq_bool(cfg[1]), common.coq_bool(cfg[2]), S(cwd), files0, L(S(d) for d in obs['dirs0']),
         L(incl), L(unp), L(globs), '1' if scn['mode'] == 'rec' else '0', S(obs['root']), body,
@@ -765,7 +828,7 @@ def describe(scn, obs) -> dict:
 
 
 def run_scenarios(ctx, cfg, scns: list[dict]):
-    cases, kept = [], []
+    cases, kept, kept_obs = [], [], []
     for scn in scns:
         obs = execute(ctx, scn)
         fails = monitors(scn, obs, obs['reach'])
@@ -788,8 +851,21 @@ def run_scenarios(ctx, cfg, scns: list[dict]):
             continue
         cases.append(coq_case(cfg, scn, obs))
         kept.append(scn)
+        kept_obs.append({'stage': obs['stage']})
     bad = ctx.run_coq_cases('editor', PREAMBLE, 'ecase', 'check_case', cases, chunk=25)
     ctx.count('traces_validated_against_impl', len(cases) - len(bad))
+    # the hypotheses of the theorems, evaluated on every scenario (boolean twins in EditorRun.v; print_parse in Python)
+    done = [i for i, c in enumerate(cases) if kept[i]['mode'] == 'rec' and kept_obs[i]['stage'] == 'done']
+    sub = [cases[i] for i in done]
+    for name, fn in (('alias_free', 'hyp_alias_free'), ('kept_keys_distinct', 'hyp_kept_distinct'),
+                     ('read_keys_distinct', 'hyp_read_keys_distinct')):
+        no = ctx.run_coq_cases('hyp_' + name, PREAMBLE, 'ecase', fn, sub, chunk=40)
+        ctx.count(f'hyp_{name}_holds', len(sub) - len(no))
+        ctx.count(f'hyp_{name}_fails', len(no))
+    ctx.count('completed_recursive_blocks', len(sub))
+    for k in HYP:
+        ctx.count('hyp_' + k, HYP[k])
+        HYP[k] = 0
     for i in bad[:3]:
         ctx.fail('corr', 'editor-correspondence',
                  'Editor.v and editor.py disagree (exception class, yielded keys, sequence of file-system calls or '
@@ -851,23 +927,30 @@ def symlink_probe(ctx) -> tuple[str, str] | None:
 
 def run(ctx: common.Ctx):
     ctx.rule = ('hand-written corpus (bare path, CRLF, cycle+diamond+glob) then seeded scenarios: 1-7 files in up to 5 '
-                'directories, 0-3 include directives per file (relative paths with ./ and ../, globs incl. **, '
+                'directories, 0-3 include directives per file (relative paths with ./ and ../, absolute paths, globs incl. **, '
                 'self/cyclic/shared includes, rarely unmatched; 30% of the trees have directories named with [ ] * ? next to '
-                'look-alike siblings), LF / CRLF / mixed line ends, 13 root spellings '
-                '(bare, relative, absolute, redundant separators, .. components; cwd = tree, its parent, a subdirectory), '
+                'look-alike siblings), LF / CRLF / mixed line ends, 16 root spellings '
+                '(bare, relative, absolute, "//" root, through a directory that does not exist, redundant separators, .. components; cwd = tree, its parent, a subdirectory), '
                 'body = random subsets edited (one token, or emptied) / removed / added (35% with an empty model) / re-keyed to another spelling of the same file '
-                '(abspath, ./, ../dir/), raising before or after its edits; '
+                '(abspath, ./, ../dir/), new keys with a directory or a regular file in the way, raising before or after its edits; '
                 'non-trivial = >= 2 files or an edit or a raise; distinct by the whole scenario')
     ctx.assumptions += [
         'Section variables of Editor.v (no law assumed in the model): parse/print/includes (lark parser, printer), '
         'glob.glob, os.path.normpath/dirname/join, str(pathlib.Path), os.path.abspath; in EditorRun.v the path '
         'functions are Gallina transcriptions of posixpath validated on every path of every scenario, glob/includes '
         'are tables recorded from the real functions',
-        'Section hypotheses of EditorProofs.v: print_parse (C01: print (parse t) = t), canon_ppath '
-        '(abspath(str(Path(p))) = abspath(p)), canon_normpath (abspath(normpath(p)) = abspath(p))',
+        'hypotheses of the theorems (all stated per theorem, none global) and how each is evaluated on every run: '
+        'print_parse (C01: parse t = Some m -> print m = t; C16_unchanged_not_written) - evaluated in Python on every '
+        'text the real parser accepts (counters hyp_print_parse_*); alias_free (C16_completed_calls_exactly and '
+        'corollaries), NoDup (map canon (keys files\')) (C16_rekeyed_entry_survives) and, for reading "exactly once" '
+        'per file rather than per spelling, NoDup (map canon (keys read)) - boolean twins hyp_alias_free / '
+        'hyp_kept_distinct / hyp_read_keys_distinct in EditorRun.v evaluated by vm_compute on every completed recursive '
+        'block (counters hyp_*_holds / _fails; a false hypothesis means the theorem does not speak about that scenario, '
+        'the correspondence and the monitors still do); canon equality + traversable (C16_edit_file_any_spelling)',
         'per-theorem hypotheses: "distinct keys denote distinct files" (alias_free = NoDup (map canon (removed ++ kept '
         'keys))) is needed for unchanged_not_written / removed_unlinked / nothing_else_touched, i.e. no symlinks or '
-        'hard links and no two spellings of one file among the keys the read phase produced; it is NOT needed between '
+        'hard links and no two spellings of one file among the keys the read phase produced (a file included by a relative '
+        'and by an absolute name gets two keys: known finding C16:same-file-under-two-spellings, C16_each_once_refuted); it is NOT needed between '
         'a removed key and a new key: re-keying an entry to another spelling of the same path (abspath, ./x, d/../d/x) '
         'is covered by C16_rekeyed_entry_survives, which only needs the kept keys to denote distinct files and follows '
         'from the order "all unlinks, then all writes" (C16_completed_trace); the body does not touch the file system '
